@@ -142,6 +142,10 @@ class Program:
             modname = relp[:-3].replace(os.sep, ".")
             if relp.endswith(".py") and modname not in self.modules and not modname.endswith("__init__"):
                 self.modules[modname] = ModInfo(modname, os.path.join(root, relp), relp, src, canonical(ast.parse(src, relp)), False)
+        # helpers the rules know by name, found by structure when they were renamed (the unchanged tree is left as it is)
+        from .roles import canonical_roles
+
+        self.roles: Dict[str, str] = canonical_roles({name: m.tree for name, m in self.modules.items()})
         for m in self.modules.values():
             for s in m.tree.body:
                 self._index_stmt(m, s)
